@@ -497,6 +497,15 @@ func main() {
 	rf := reloadFacts(filepath.Join(dir, "FileConfig.go"))
 	fmt.Fprintf(&b, "/-- reload: os.Stat calls; is every assignment of the file stamp (last_file_time from the file) placed before the call of Parser.Read? -/\ndef statCallsInReload : Nat := %d\ndef stampRecordedBeforeRead : Bool := %v\n\n", rf.stats, rf.stampBeforeRead)
 	fmt.Fprintf(&b, "/-- replacements of the whole map (`this.m = make(…)`) in methods of FileConfig: (method, lock held, refilled before the lock is released) -/\ndef mapReplacements : List (String × Held × Bool) := [%s]\n\n", strings.Join(rf.replacements, ", "))
+	cf := commentFacts(filepath.Join(dir, "DefaultFileParser.go"))
+	fmt.Fprintf(&b, "/-- DefaultFileParser.Write, the test that copies a line unchanged: `strings.Index(line, \"=\") == -1 || HasPrefix(text, p) …` with text := strings.TrimLeft(line, cutset): does it have the no-'=' disjunct, the cutset, the prefixes -/\ndef passThroughNoEq : Bool := %v\ndef commentTrimChars : List Char := [%s]\ndef commentPrefixes : List (List Char) := [%s]\n\n",
+		cf.noEq, charList(cf.cutset), func() string {
+			var ps []string
+			for _, p := range cf.prefixes {
+				ps = append(ps, "["+charList(p)+"]")
+			}
+			return strings.Join(ps, ", ")
+		}())
 	b.WriteString("/-- the table assigned by ApplyDefault -/\ndef defaults : List (String × String) := [\n")
 	for i, d := range sm.defaults {
 		sep := ","
@@ -839,4 +848,89 @@ func reloadFacts(goFile string) reloadFactsT {
 		rf.stampBeforeRead = readPos != token.NoPos && lastStamp != token.NoPos && lastStamp < readPos
 	}
 	return rf
+}
+
+func charList(s string) string {
+	var cs []string
+	for _, r := range s {
+		cs = append(cs, fmt.Sprintf("Char.ofNat %d", r))
+	}
+	return strings.Join(cs, ", ")
+}
+
+type commentFactsT struct {
+	noEq     bool
+	cutset   string
+	prefixes []string
+}
+
+// commentFacts: in Write, the `if` whose condition mentions strings.Index(…, "=") == -1 decides which lines
+// are copied unchanged; `text` is the line with a cutset trimmed from the left.
+func commentFacts(goFile string) commentFactsT {
+	var cf commentFactsT
+	fset := token.NewFileSet()
+	f, err := parser.ParseFile(fset, goFile, nil, 0)
+	if err != nil {
+		return cf
+	}
+	for _, d := range f.Decls {
+		fd, ok := d.(*ast.FuncDecl)
+		if !ok || fd.Name.Name != "Write" || fd.Recv == nil || fd.Body == nil {
+			continue
+		}
+		trimOf := map[string]string{} // variable → cutset of strings.TrimLeft
+		ast.Inspect(fd.Body, func(n ast.Node) bool {
+			switch x := n.(type) {
+			case *ast.AssignStmt:
+				if len(x.Lhs) == 1 && len(x.Rhs) == 1 {
+					if c, ok := x.Rhs[0].(*ast.CallExpr); ok && exprString(c.Fun) == "strings.TrimLeft" && len(c.Args) == 2 {
+						if id, ok := x.Lhs[0].(*ast.Ident); ok {
+							if cs, ok := strLit(c.Args[1]); ok {
+								trimOf[id.Name] = cs
+							}
+						}
+					}
+				}
+			case *ast.IfStmt:
+				txt := exprText(x.Cond)
+				if !strings.Contains(txt, "strings.Index(") {
+					return true
+				}
+				// disjuncts
+				var walk func(e ast.Expr)
+				walk = func(e ast.Expr) {
+					if be, ok := e.(*ast.BinaryExpr); ok && be.Op == token.LOR {
+						walk(be.X)
+						walk(be.Y)
+						return
+					}
+					if be, ok := e.(*ast.BinaryExpr); ok && be.Op == token.EQL {
+						if c, ok := be.X.(*ast.CallExpr); ok && exprString(c.Fun) == "strings.Index" && len(c.Args) == 2 {
+							if lit, ok := strLit(c.Args[1]); ok && lit == "=" {
+								if u, ok := be.Y.(*ast.UnaryExpr); ok && u.Op == token.SUB && exprText(u.X) == "1" {
+									cf.noEq = true
+								}
+							}
+						}
+						return
+					}
+					if c, ok := e.(*ast.CallExpr); ok && exprString(c.Fun) == "strings.HasPrefix" && len(c.Args) == 2 {
+						if id, ok := c.Args[0].(*ast.Ident); ok {
+							if lit, ok := strLit(c.Args[1]); ok {
+								cf.prefixes = append(cf.prefixes, lit)
+								if cs, ok := trimOf[id.Name]; ok {
+									cf.cutset = cs
+								}
+							}
+						}
+						return
+					}
+					cf.prefixes = append(cf.prefixes, "?"+exprText(e)) // an unknown disjunct must not pass silently
+				}
+				walk(x.Cond)
+			}
+			return true
+		})
+	}
+	return cf
 }
